@@ -5,6 +5,7 @@ mod allocseam;
 mod c01;
 mod c03;
 mod c04;
+mod c15;
 mod c16;
 mod c17;
 mod c18;
@@ -37,6 +38,7 @@ fn prop_fn(id: &str) -> Option<(&'static str, PropFn)> {
         "C01" => ("C01", c01::run as PropFn),
         "C03" => ("C03", c03::run as PropFn),
         "C04" => ("C04", c04::run as PropFn),
+        "C15" => ("C15", c15::run as PropFn),
         "C16" => ("C16", c16::run as PropFn),
         "C17" => ("C17", c17::run as PropFn),
         "C18" => ("C18", c18::run as PropFn),
